@@ -166,6 +166,7 @@ CHECKS["C20"] = dict(
     harnesses=[
         dict(name="H20-routes", pkgs=["./s3api"], entry="s3api.VfCrashRoutes", redirects="spec/redirects_ctrl_stub.json", reach=["returned", "handler-entered"],
              key_trace=['"route=']),
+        dict(name="H20-auth", pkgs=["./s3api"], entry="s3api.VfAuthCrash", redirects="spec/redirects_auth.json", reach=["answered"]),
         dict(name="H20-parsers", pkgs=["./backend"], entry="backend.VfCrashParsers", native=True, reach=["returned"]),
         dict(name="H20-chunk", pkgs=["./s3api/utils"], entry="s3api/utils.VfCrashChunk", redirects="spec/redirects.json", pkgname="utils", native=True, reach=["returned"]),
     ],
@@ -173,4 +174,22 @@ CHECKS["C20"] = dict(
                  "callers pass non-empty copy-source headers to ParseCopySource"],
     outside=["liveness/latency beyond loop termination", "the HTTP layer (fiber/fasthttp parsing)", "posix backend entry points (FS model: not built yet)",
              "panics inside un-modelled libraries"],
+)
+
+CHECKS["C02"] = dict(
+    explanation="The real authentication middlewares (presigned and header: immediate and deferred verification via AuthReader), the MD5 and ACL "
+                "middlewares and every route handler run symbolically over a backend model whose PutObject/UploadPart consume the body stream the way "
+                "the posix backend does; the signature computation is a recording stand-in. Oracle: every mutating backend call happens after a "
+                "verification that succeeded; a 2xx answer implies one; missing/unknown/invalid credentials end in an error without successful "
+                "mutation. Second harness: AuthReader under each of the three chunk decoders on valid streams - the verification has run by the "
+                "time the decoder reports EOF.",
+    harnesses=[
+        dict(name="H02a-chain", pkgs=["./s3api"], entry="s3api.VfAuthChain", redirects="spec/redirects_auth.json", reach=["answered", "handler-entered"],
+             key_trace=['"route=', '"call='], panic_ok=True),
+        dict(name="H02a-deferred", pkgs=["./s3api/utils"], entry="s3api/utils.VfDeferredAuth", redirects="spec/redirects_deferred.json", reach=["drained", "accepted"]),
+    ],
+    assumptions=["CheckValidSignature / CheckPresignedSignature return an arbitrary verdict (what a correct signature is - canonical request, HMAC chain - is outside)",
+                 "the posix backend's body consumption is modelled by the recorder hooks (reads to EOF, fails on read error; directory objects unread)",
+                 "access/lock decision functions are stand-ins; time.Now is a fixed instant inside the request's validity window"],
+    outside=["aws/signer/v4", "date-window and scope arithmetic (H02b: not built)", "admin API", "body content beyond 2 bytes in the chain harness"],
 )
